@@ -54,6 +54,10 @@ func genAffinityPlan(seed uint64, tier string) *Plan {
 			op := Op{Kind: "tx", ID: id, Conn: fmt.Sprintf("k%d", ci), SrcIP: clientIP, DelayUs: int64(g.intn(12)) * 2500,
 				S: map[string]string{"method": g.pick("INVITE", "OPTIONS", "MESSAGE", "REGISTER", "INFO"), "prov": g.pick("", "100", "180", "100,180", "183")},
 				I: map[string]int{"final": g.pick2(200, 200, 404, 486, 302, 603), "d1": 200 + g.intn(8000), "d2": 300 + g.intn(8000), "rport": g.intn(3)}}
+			if g.chance(12) {
+				// a slow final answer: it crosses the transport table's once-a-minute clean-up
+				op.I["d2"] = 61000000 + g.intn(140000000)
+			}
 			if sameSentBy {
 				op.S["sentby"] = "10.1.0.1:5060"
 			} else if g.chance(30) {
@@ -130,7 +134,7 @@ func execAffinity(t *testing.T, p *Plan) *Result {
 				c.Write(b.Bytes())
 			})
 		}
-		w.K.Settle(2 * time.Minute)
+		w.K.Settle(10 * time.Minute)
 		if w.dead() {
 			return
 		}
